@@ -204,9 +204,9 @@ package transports
 // the reader: a frame is handed on only when it was read completely, as a buffer of the frame's kind; each frame once
 //@ func (*websocket).message()
 //@   props C02, C09
-//@   requires wsOK(w)
+//@   requires wsOK(w) && !w.socket.Conn.$readFailed
 //@   modifies *
-//@   loop 1 invariant wsOK(w)
+//@   loop 1 invariant wsOK(w) && !w.socket.Conn.$readFailed   // the loop never reads again from a connection whose NextReader failed
 //@   callsite (*websocket).onMessage#1
 //@     assert [C02.ws.binary]   ret((*ws.Conn).NextReader, 1, 0) == ws.BinaryMessage && typeis($data, *types.BytesBuffer) && $data == ret(types.NewBytesBuffer, 1)
 //@     assert [C02.ws.complete] ret(io.ReaderFrom.ReadFrom, 1, 1) == nil && arg(io.ReaderFrom.ReadFrom, 1, this) == $data && arg(io.ReaderFrom.ReadFrom, 1, r) == ret((*ws.Conn).NextReader, 1, 1)
